@@ -282,6 +282,9 @@ func (rd *remoteDelivery) connectionForDomain(ctx context.Context, domain string
 	}
 
 	if err := conn.Mail(ctx, rd.mailFrom, mailOpts); err != nil {
+		// The connection is not added to rd.connections, so Close will not
+		// release the destination limit taken above.
+		rd.rt.limits.ReleaseDest(domain)
 		conn.Close()
 		return nil, err
 	}
